@@ -41,6 +41,17 @@ type c17S struct {
 	N int    `yaml:"n"`
 }
 
+// a configuration struct that embeds another struct by value: the embedded part is configured
+// under its own key
+type C17Inner struct {
+	X string `yaml:"x"`
+	N int    `yaml:"n"`
+}
+type c17Emb struct {
+	C17Inner `yaml:"inner"`
+	A        string `yaml:"a"`
+}
+
 // configuration-properties types: an untagged field of such a type is bound by the prefix its
 // Prefix() method names
 type c17CPm c17S
@@ -60,6 +71,7 @@ var c17Vals = map[string]any{
 	"ls": []any{"a", "b"}, "li": []any{1, 2}, "lmix": []any{"1.10", "x"},
 	"m": map[string]any{"a": "x", "n": 3}, "ms": map[string]any{"a": "1.10", "n": 7}, "mss": map[string]any{"a": "x", "b": "1.10"},
 	// keys containing the path separator, nested maps, an empty nested map
+	"memb": map[string]any{"a": "x", "inner": map[string]any{"x": "1.10", "n": 2}},
 	"mdot": map[string]any{"a.b": "x", "c": "y"}, "mnest": map[string]any{"in": map[string]any{"x": "1"}, "e": map[string]any{}, "s": "t"},
 }
 
@@ -68,6 +80,7 @@ type c17Str string
 type c17I64 int64
 
 var c17Types = map[string]reflect.Type{
+	"embstruct": reflect.TypeOf(c17Emb{}), "pembstruct": reflect.TypeOf(&c17Emb{}),
 	"nstring": reflect.TypeOf(c17Str("")), "pnstring": reflect.TypeOf((*c17Str)(nil)), "nint64": reflect.TypeOf(c17I64(0)),
 	"string": reflect.TypeOf(""), "pstring": reflect.TypeOf((*string)(nil)), "int": reflect.TypeOf(0), "int64": reflect.TypeOf(int64(0)),
 	"uint8": reflect.TypeOf(uint8(0)), "float64": reflect.TypeOf(0.0), "bool": reflect.TypeOf(false),
@@ -104,6 +117,9 @@ func c17Compatible(vk, tn string) bool {
 		}
 		if vk == "mnest" {
 			return tn == "mapany" || tn == "any"
+		}
+		if vk == "memb" {
+			return tn == "mapany" || tn == "any" || tn == "embstruct" || tn == "pembstruct"
 		}
 		return tn == "mapany" || tn == "struct" || tn == "pstruct" || tn == "any"
 	}
